@@ -64,19 +64,24 @@ def apiFinish (r : XYZ) (unc : Bool) : ApiRes :=
 /-- `BaseMultiply(k, out)`; `k` = the value `Number.SetBytes` reads from the scalar bytes (any length) -/
 def baseMultiply (k : Nat) (unc : Bool) : ApiRes := apiFinish (ecmultGen k) unc
 
-/-- `BaseMultiplyAdd(xy, k, out)`: out = k·G + xy -/
-def baseMultiplyAdd (xy : List Nat) (k : Nat) (unc : Bool) : ApiRes :=
+/-- `if !pk.ParsePubkey(xy) { return false }` followed by the rest of the function -/
+def withParsed (xy : List Nat) (f : XY → ApiRes) : ApiRes :=
   match XY.parsePubkey xy with
   | none => .refused
-  | some pk => apiFinish (XYZ.addXY (ecmultGen k) pk) unc
+  | some pk => f pk
+
+/-- `ECmult` panics (wNAF longer than 129 digits) or yields r -/
+def withEcmult (o : Option XYZ) (f : XYZ → ApiRes) : ApiRes :=
+  match o with
+  | none => .panic
+  | some r => f r
+
+/-- `BaseMultiplyAdd(xy, k, out)`: out = k·G + xy -/
+def baseMultiplyAdd (xy : List Nat) (k : Nat) (unc : Bool) : ApiRes :=
+  withParsed xy fun pk => apiFinish (XYZ.addXY (ecmultGen k) pk) unc
 
 /-- `Multiply(xy, k, out)`: out = k·xy (`ECmult(&xyz, &na, &nzero)`; a wNAF longer than 129 digits would panic) -/
 def multiply (xy : List Nat) (k : Nat) (unc : Bool) : ApiRes :=
-  match XY.parsePubkey xy with
-  | none => .refused
-  | some pk =>
-    match ecmult (XYZ.ofXY pk) (k : Int) 0 with
-    | none => .panic
-    | some r => apiFinish r unc
+  withParsed xy fun pk => withEcmult (ecmult (XYZ.ofXY pk) (k : Int) 0) fun r => apiFinish r unc
 
 end GocoinV.C08
